@@ -4,6 +4,7 @@ COMMON_ASSUME = [
     "sampling, not enumeration: a clean batch is evidence, not proof",
     "library sources are compiled unmodified by GCC 12 -O2 and their external references retargeted with objcopy",
 ]
+STUB_KERNEL = ["sem_open/close/unlink/wait/post", "shm_open/unlink", "ftruncate/fstat/close (descriptor table)", "mmap/munmap bookkeeping (mappings are real memfd mappings)", "processes and SIGKILL", "clock"]
 STUB_PTHREAD = ["pthread_mutex_*", "pthread_cond_*", "pthread_rwlock_*", "pthread_create/join/exit/self/key_*", "scheduler (seeded, cooperative fibers)", "allocator (p_mem_set_vtable)"]
 
 PROPS = {
@@ -75,5 +76,20 @@ PROPS = {
         "components": {"real": ["puthread.c", "puthread-posix.c", "patomic-*.c and pspinlock-*.c of the variant", "pmem.c", "pstring.c", "pmain.c"], "stub": STUB_PTHREAD},
         "assumptions": COMMON_ASSUME + ["simulated pthread_create/join/exit/key_* state POSIX semantics (destructors run in key order, up to 4 rounds)",
                                         "handle release observed through the tracking allocator (the PUThread block returned by p_uthread_create)"],
+    },
+    "C06": {
+        "harness": "ipc_sem",
+        "variants": ["T.c11.posix", "A.c11.posix"],
+        "quick_s": 12, "thorough_s": 300,
+        "level": "exploration",
+        "rule": ("one evaluation = one simulated run: 1-3 simulated processes x 1-2 tasks run generated scripts of new(OPEN|CREATE, value 0-3)/acquire/release/"
+                 "take_ownership/free on two names (life-cycle calls serialised, acquire/release concurrent), optionally with a SIGKILL of one process before/after its "
+                 "k-th IPC system call and EINTR injection, followed by the documented clean-up (open, take ownership, free, create) from a fresh process; "
+                 "distinct = distinct hash of (per-name operation order, event log); non-trivial = more than one context switch or one fired fault"),
+        "probes": ["sem.open_existing", "sem.create_on_existing", "sem.owner_free", "sem.take_ownership", "sem.wait_blocked", "sem.kill_happened",
+                   "sem.same_process_reopen", "sem.acquire_cancelled_at_quiescence", "eintr.sem_wait"],
+        "components": {"real": ["psemaphore-posix.c", "pipc.c", "pcryptohash.c + pcryptohash-sha1.c (name hashing)", "perror.c", "pmem.c", "pmain.c"], "stub": STUB_KERNEL + STUB_PTHREAD},
+        "assumptions": COMMON_ASSUME + ["POSIX semaphore name space modelled with Linux/glibc semantics (same name in one process = one reference-counted sem_t, unlink keeps open objects alive)",
+                                        "simulated processes share one address space; kills happen at IPC system calls"],
     },
 }
